@@ -44,7 +44,7 @@ func c19Scenario(p c19Params, bound int) vh.SScenario {
 			conns := []*fakeConn{{}, {}}
 			k.lb.wsPool.Put("b0", conns[0])
 			k.lb.wsPool.Put("b0", conns[1]) // one pool key: Shutdown ranges over a map, whose order would make replays diverge
-			s.Settle() // initial probe round
+			s.Settle()                      // initial probe round
 			stopsReturned := 0
 			probesAtLastStop := -1
 			reqStatus := 0
